@@ -81,6 +81,17 @@ def draw_cfg(r, profile):
         c["excludes"] = r.random() < 0.2
     if profile == "c15":
         c["n_plat"] = r.choice([1, 2, 3])
+        c["decorate"] = True
+        c["spelling"] = r.choice(["simple", "full"])
+        c["p_dirlink"] = r.choice([0.2, 0.5, 0.8])
+        c["p_filelink"] = r.choice([0.0, 0.2, 0.5])
+        c["p_alias"] = r.choice([0.4, 0.7, 1.0])
+        c["p_once"] = r.choice([0.3, 0.6])
+        c["p_resens"] = r.choice([0.5, 0.9])
+        c["dot_includes"] = r.choice([0.0, 0.3])
+        c["p_include"] = r.choice([0.25, 0.4, 0.5])
+        c["n_hdr"] = r.choice([1, 2, 2, 3])
+        c["p_guard"] = r.choice([0.0, 0.2])
     return c
 
 
@@ -250,6 +261,11 @@ class Gen:
         # a file nobody compiles or includes
         if r.random() < 0.3:
             files[os.path.join(ROOT, "d2", "unused.c")] = {"lang": "c", "items": [["code", 2]]}
+        links = []
+        if cfg.get("decorate"):
+            links, self.alias = self.make_links(files)
+            if any(l["kind"] in ("outside", "outside_dir") for l in links) and EXT_DIR not in dirs:
+                dirs.append(EXT_DIR)
         # platforms
         plats = []
         inc_pool = [os.path.join(ROOT, d) for d in ["d1", "d2", "inc1", "inc2"]]
@@ -265,7 +281,7 @@ class Gen:
                 ents.append(self.entry(r.choice(srcs), inc_pool, hdrs))
             ents = self.add_db_faults(ents)
             plats.append({"name": name, "db": f"proj/db/{name}.json", "entries": ents})
-        w = {"root": ROOT, "files": files, "dirs": dirs, "links": [], "platforms": plats,
+        w = {"root": ROOT, "files": files, "dirs": dirs, "links": links, "platforms": plats,
              "excludes": [], "cbi_config": None}
         if cfg["excludes"]:
             w["excludes"] = [r.choice(["d2/", "*.hpp", "inc2/"])]
@@ -329,12 +345,78 @@ class Gen:
         raise ValueError(style)
 
     def entry(self, src, inc_pool, hdrs):
-        return self.spell_entry(self.sem_entry(src, inc_pool, hdrs))
+        return self.spell_entry(self.sem_entry(src, inc_pool, hdrs), alias=getattr(self, "alias", None))
 
-    def spell_entry(self, sem):
+    # --------------------------------------------------------------------------- decoration
+    def make_links(self, files):
+        """Aliases for C15: file links beside their targets, directory links that are siblings of
+        their targets, dangling links, links to targets outside the code base.
+        -> (links, alias callback)"""
+        r = self.r
+        links = []
+        dir_links = {}    # canonical dir rel -> link rel
+        file_links = {}   # canonical file rel -> link rel
+        cand_dirs = [os.path.join(ROOT, d) for d in ("d1", "d2", "inc1", "inc2", "build")] + [BUILD_OUT]
+        if self.cfg["ext_dir"]:
+            cand_dirs.append(EXT_DIR)
+        for d in cand_dirs:
+            if r.random() < self.cfg.get("p_dirlink", 0.4):
+                parent, name = os.path.split(d)
+                lp = os.path.join(parent, "L" + name)
+                links.append({"path": lp, "target": name, "kind": "dir"})
+                dir_links[d] = lp
+        for f in sorted(files):
+            if r.random() < self.cfg.get("p_filelink", 0.3):
+                parent, name = os.path.split(f)
+                lp = os.path.join(parent, "fl_" + name)
+                links.append({"path": lp, "target": name, "kind": "file"})
+                file_links[f] = lp
+        if r.random() < 0.4:
+            links.append({"path": os.path.join(ROOT, "d2", "dangling.c"), "target": "nothing_here.c", "kind": "dangling"})
+        if r.random() < 0.4:
+            links.append({"path": os.path.join(ROOT, "d2", "outlink.c"), "target": "../../ext/outfile.c", "kind": "outside"})
+            files[os.path.join(EXT_DIR, "outfile.c")] = {"lang": "c", "items": [["code", 3]]}
+        if r.random() < 0.3:
+            links.append({"path": os.path.join(ROOT, "Lextdir"), "target": "../ext", "kind": "outside_dir"})
+        p_alias = self.cfg.get("p_alias", 0.6)
+
+        def alias(rel):
+            out = rel
+            if r.random() < p_alias:
+                if out in file_links and r.random() < 0.5:
+                    out = file_links[out]
+                for d in sorted(dir_links, key=len, reverse=True):
+                    if (out == d or out.startswith(d + "/")) and r.random() < 0.7:
+                        out = dir_links[d] + out[len(d):]
+                        break
+                if r.random() < 0.3:
+                    parts = out.split("/")
+                    i = r.randint(1, len(parts) - 1)
+                    out = "/".join(parts[:i] + ["."] + parts[i:])
+            return out
+
+        return links, alias
+
+    def spell_entry(self, sem, alias=None, canonical=False):
+        """Concrete entry for a semantic entry. alias: optional callback mapping a canonical path
+        (relative to the scratch top) to one of its aliases; canonical: absolute canonical
+        spellings only, no `directory`."""
         r, cfg = self.r, self.cfg
         full = cfg["spelling"] == "full"
+        alias = alias or (lambda p: p)
         e = {}
+        if canonical:
+            e["file"] = os.path.join(TOP, sem["src"])
+            argv = [sem["compiler"]]
+            for d in sem["defs"]:
+                argv.append("-D" + d)
+            for kind, d in sem["incs"]:
+                argv += ["-I" if kind == "I" else "-isystem", os.path.join(TOP, d)]
+            for f in sem["forced"]:
+                argv += ["-include", f]
+            argv += list(sem["extra"]) + ["-c", e["file"]]
+            e["arguments"] = argv
+            return e
         # directory
         if full:
             dmode = r.choice(["none", "absroot", "abs_in", "abs_out", "rel_in", "rel_out", "rel_dot"])
@@ -347,10 +429,10 @@ class Gen:
             e["directory"] = os.path.join(TOP, ROOT)
         elif dmode == "abs_in":
             base = BUILD_IN
-            e["directory"] = os.path.join(TOP, BUILD_IN)
+            e["directory"] = os.path.join(TOP, alias(BUILD_IN))
         elif dmode == "abs_out":
             base = BUILD_OUT
-            e["directory"] = os.path.join(TOP, BUILD_OUT)
+            e["directory"] = os.path.join(TOP, alias(BUILD_OUT))
         elif dmode == "rel_in":
             base = BUILD_IN
             e["directory"] = os.path.relpath(BUILD_IN, ROOT)
@@ -361,19 +443,19 @@ class Gen:
             base = ROOT
             e["directory"] = "."
         styles = ["abs", "rel", "rel", "dot", "dotdot"] if full else ["abs", "rel", "rel", "dot"]
-        e["file"] = self.spell_path(sem["src"], base, r.choice(styles))
+        e["file"] = self.spell_path(alias(sem["src"]), base, r.choice(styles))
         argv = [sem["compiler"]]
         opts = []
         for d in sem["defs"]:
             opts.append(["-D" + d] if r.random() < 0.7 else ["-D", d])
         for kind, d in sem["incs"]:
-            sp = self.spell_path(d, base, r.choice(styles))
+            sp = self.spell_path(alias(d), base, r.choice(styles))
             if kind == "I":
                 opts.append(["-I" + sp] if r.random() < 0.6 else ["-I", sp])
             else:
                 opts.append(["-isystem", sp])
         for f in sem["forced"]:
-            opts.append(["-include", f])
+            opts.append(["-include", os.path.join(TOP, alias(f[len(TOP) + 1:])) if f.startswith(TOP + "/") else f])
         for x in sem["extra"]:
             opts.append([x])
         # Order among -D/-I/-isystem/-include groups is kept (it is semantic); unknown flags and
